@@ -2,6 +2,7 @@ package props
 
 import (
 	"fmt"
+	"go/token"
 	"strings"
 
 	"golang.org/x/tools/go/ssa"
@@ -18,6 +19,44 @@ func fromParam(v ssa.Value, fn *ssa.Function, idx int) bool {
 	}
 	org := sx.Origins(v)
 	return len(org) == 1 && org["param:"+fn.Params[idx].Name()]
+}
+
+// fromParamVia: v is parameter idx, possibly kept in a field of a local struct in between (`c.destPath = destPath; …
+// os.Create(c.destPath)`): every store to that field of that local object in fn stores the parameter.
+func fromParamVia(v ssa.Value, fn *ssa.Function, idx int) bool {
+	if fromParam(v, fn, idx) {
+		return true
+	}
+	ld, ok := v.(*ssa.UnOp)
+	if !ok || ld.Op != token.MUL {
+		return false
+	}
+	fa, ok := ld.X.(*ssa.FieldAddr)
+	if !ok {
+		return false
+	}
+	base, ok := fa.X.(*ssa.Alloc)
+	if !ok {
+		return false
+	}
+	n, okAll := 0, true
+	sx.Instrs(fn, func(in ssa.Instruction) {
+		st, ok := in.(*ssa.Store)
+		if !ok {
+			return
+		}
+		if fa2, ok := st.Addr.(*ssa.FieldAddr); ok && fa2.X == ssa.Value(base) && fa2.Field == fa.Field {
+			n++
+			if !fromParam(st.Val, fn, idx) {
+				okAll = false
+			}
+		}
+		// the whole struct overwritten: unknown contents
+		if st.Addr == ssa.Value(base) {
+			okAll = false
+		}
+	})
+	return n > 0 && okAll
 }
 
 // truncatingOpen reports whether call c opens/creates its path argument with truncation.
@@ -252,10 +291,7 @@ func runC18(p *core.Prog, r *core.Report) {
 			if name != "os.OpenFile" && name != "os.Create" && name != "os.CreateTemp" {
 				return
 			}
-			if name == "os.OpenFile" && !sx.Origins(c.Call.Args[0])["param:"+cp.Params[1].Name()] {
-				return
-			}
-			if name == "os.Create" && !sx.Origins(c.Call.Args[0])["param:"+cp.Params[1].Name()] {
+			if (name == "os.OpenFile" || name == "os.Create") && !sx.Origins(c.Call.Args[0])["param:"+cp.Params[1].Name()] && !fromParamVia(c.Call.Args[0], cp, 1) {
 				return
 			}
 			n++
